@@ -1,3 +1,4 @@
 import NasdaqModel.Driver.Loop
 import NasdaqModel.Driver.Seq
-def main : IO Unit := NasdaqModel.Driver.mainLoop [NasdaqModel.Driver.SeqD.handle]
+import NasdaqModel.Driver.SeqMulti
+def main : IO Unit := NasdaqModel.Driver.mainLoop [NasdaqModel.Driver.SeqD.handle, NasdaqModel.Driver.SeqMultiD.handle]
